@@ -466,7 +466,7 @@ func vh_C06_front_signature_Q() {
 
 // ---- C07 through the front end: components.schemas against the Go declarations
 
-var vhFrontFieldTypes = []string{"string", "Leaf", "*Leaf", "[]Leaf", "Color", "ID", "*Inner", "map[string]Leaf", "time.Time", "[]byte", "[][]Leaf"}
+var vhFrontFieldTypes = []string{"string", "Leaf", "*Leaf", "[]Leaf", "Color", "ID", "*Inner", "map[string]Leaf", "time.Time", "[]byte", "[][]Leaf", "other.Ext", "[]*other.Ext", "Level"}
 
 // the named types of this package a type expression refers to
 func vhFrontDeps(t string) []string {
@@ -479,6 +479,10 @@ func vhFrontDeps(t string) []string {
 		return []string{"ID"}
 	case "Inner", "*Inner", "[]Inner":
 		return []string{"Inner"}
+	case "other.Ext", "[]*other.Ext":
+		return []string{"Ext"}
+	case "Level":
+		return []string{"Level"}
 	}
 	return nil
 }
@@ -489,10 +493,20 @@ func vhFrontModelSource(f0, f1, param, ret string) string {
 import (
 	"time"
 
+	"example.com/other"
 	"github.com/gopher-fleece/runtime"
 )
 
 var _ time.Time
+var _ other.Ext
+
+type Level int
+
+const (
+	LevelLow  Level = 1
+	levelMid  Level = 5
+	LevelHigh Level = 9
+)
 
 type Leaf struct {
 	V int ` + "`json:\"v\"`" + `
@@ -580,6 +594,8 @@ func vh_C07_front_models_Q() {
 			}
 		case "Base":
 			visit("ID")
+		case "Ext":
+			visit("Kind") // a type of another package and what it reaches there
 		}
 	}
 	for _, t := range []string{param, ret} {
@@ -588,7 +604,7 @@ func vh_C07_front_models_Q() {
 		}
 	}
 	var want []string
-	for _, n := range []string{"Base", "Color", "ID", "Inner", "Leaf"} {
+	for _, n := range []string{"Base", "Color", "Ext", "ID", "Inner", "Kind", "Leaf", "Level"} {
 		if reach[n] {
 			want = append(want, n)
 		}
@@ -623,6 +639,17 @@ func vh_C07_front_models_Q() {
 		if reach["Color"] {
 			v := views["Color"][vi]
 			symxAssert(v.typ == "string" && vhSameStrings(vhSortStrings(v.enum), []string{"blue", "red"}), "C07.front."+ver+".enum-lists-exactly-its-constants")
+		}
+		if reach["Level"] {
+			v := views["Level"][vi]
+			symxRecord("level"+ver, v.typ, strings.Join(v.enum, ","))
+			symxAssert(v.typ == "integer" && len(v.enum) == 3, "C07.front."+ver+".integer-enum-lists-exactly-its-constants")
+		}
+		if reach["Ext"] {
+			v := views["Ext"][vi]
+			symxAssert(vhSameStrings(v.props, []string{"K", "a"}) && v.propRefs[0] == "#/components/schemas/Kind", "C07.front."+ver+".type-of-another-package-mirrors-its-declaration")
+			k := views["Kind"][vi]
+			symxAssert(k.typ == "string" && vhSameStrings(vhSortStrings(k.enum), []string{"a", "b"}), "C07.front."+ver+".enum-of-another-package")
 		}
 		if reach["ID"] {
 			v := views["ID"][vi]
